@@ -735,7 +735,12 @@ func (g *graph) read(node ast.Node, by types.Object) {
 		g.read(node.Type, by)
 		// We get the type of the node itself, not of node.Type, to handle nested composite literals of the kind
 		// T{{...}}
-		typ, isStruct := typeutil.CoreType(g.info.TypeOf(node)).(*types.Struct)
+		coreType := typeutil.CoreType(g.info.TypeOf(node))
+		if ptr, ok := coreType.(*types.Pointer); ok {
+			// In []*T{{...}} the &T of the inner literals is elided; the type of such a literal is *T.
+			coreType = typeutil.CoreType(ptr.Elem())
+		}
+		typ, isStruct := coreType.(*types.Struct)
 
 		if isStruct {
 			unkeyed := len(node.Elts) != 0 && !isOfType[*ast.KeyValueExpr](node.Elts[0])
